@@ -395,12 +395,11 @@ func (c *StreamCfg) mapEntry(t *rapid.T, fd protoreflect.FieldDescriptor, depth 
 		c.excluded("map entry without value for a message-valued map")
 		shape = 0
 	}
-	if shape == 10 && msgVal {
-		// duplicated message value inside one entry: the statement says "last
-		// value", the reference merges -> ambiguous, never generated
-		c.excluded("ambiguous: duplicated message value in one map entry")
-		shape = 0
-	}
+	// shape 10 with a message value: the value record occurs twice in one entry. The
+	// statement's summary says "last value"; its oracle, the reference decoder,
+	// merges the occurrences (a map entry is a message with a singular value
+	// field). This shape was excluded as ambiguous until the generated decoder
+	// was repaired to merge as well.
 	if (shape == 9 || shape == 10) && c.Avoid["map_entry_dup_scalar"] {
 		c.excluded("duplicated scalar key/value inside one map entry")
 		shape = 0
